@@ -126,6 +126,33 @@ def _parse_re_k(s):
     return m.group(1), (-1 if m.group(3) == "all" else int(m.group(3) or 0))
 
 
+def _loop_index(sel, loops, src, toks, f, fn):
+    """loop selector: ordinal, or /regex/ matched against the loop header text (first match)"""
+    if re.fullmatch(r"\d+", sel):
+        n = int(sel)
+        if n >= len(loops):
+            raise Lost("%s::%s: loop %d not found (function has %d loops)" % (f, fn, n, len(loops)))
+        return n
+    m = re.fullmatch(r"/(.*)/", sel)
+    if not m:
+        raise ValueError("bad loop selector " + sel)
+    for i, lp in enumerate(loops):
+        hdr = src[toks[lp["kw_tok"]].start:toks[lp["body_open"]].start]
+        if re.search(m.group(1), hdr):
+            return i
+    raise Lost("%s::%s: no loop header matches /%s/" % (f, fn, m.group(1)))
+
+
+def _split_loop_sel(words):
+    """['loop', SEL..., what, ...] where SEL may contain spaces if it is a /regex/ -> (sel, rest)"""
+    if words[1].startswith("/"):
+        j = 1
+        while not (words[j].endswith("/") and (j > 1 or len(words[j]) > 1)):
+            j += 1
+        return " ".join(words[1:j + 1]), words[j + 1:]
+    return words[1], words[2:]
+
+
 class Weaver:
     def __init__(self, repo_root, vacuity=None):
         self.repo = repo_root
@@ -273,6 +300,17 @@ class Weaver:
         for (hd, body, lno) in sections:
             w = hd.split()
             k = w[0]
+            optional = k.endswith("?") and k not in ("replace?",)
+            if optional:
+                k = k[:-1]
+                w[0] = k
+                hd = hd.replace(k + "?", k, 1)
+                n_before = len(edits)
+                try:
+                    self._one_section(k, w, hd, body, lno, src, toks, it, loops, add, tmpl_origin, f, head, loop_hdr, raw, T)
+                except Lost:
+                    del edits[n_before:]
+                continue
             if k == "norule":
                 pass
             elif k == "ret":
@@ -300,11 +338,11 @@ class Weaver:
                     add(sig_s + m.start(), sig_s + m.end(), m.expand(repl), "sig")
                     elog.append("sig: `%s` => `%s`" % (m.group(0), m.expand(repl)))
             elif k == "loop":
-                n = int(w[1])
-                if n >= len(loops):
-                    raise Lost("%s::%s: loop %d not found (function has %d loops)" % (f, head["fn"], n, len(loops)))
+                sel, rest = _split_loop_sel(w)
+                n = _loop_index(sel, loops, src, toks, f, head["fn"])
                 lp = loops[n]
-                what = w[2]
+                what = rest[0]
+                w = ["loop", str(n)] + rest
                 if what == "iter":
                     # for PAT in EXPR {  => for PAT in NAME: EXPR {
                     if lp["kw"] != "for":
@@ -434,6 +472,26 @@ class Weaver:
                                 repo_line=src.count("\n", 0, it.start) + 1, piece_lo=start_piece,
                                 piece_hi=len(u.pieces)))
 
+    def _one_section(self, k, w, hd, body, lno, src, toks, it, loops, add, tmpl_origin, f, head, loop_hdr, raw, T):
+        """optional (`?`) sections: only `loop ...` contracts and `at ...` hints may be optional"""
+        if k == "loop":
+            sel, rest = _split_loop_sel(w)
+            n = _loop_index(sel, loops, src, toks, f, head["fn"])
+            lp = loops[n]
+            what = rest[0]
+            if what == "iter":
+                raise ValueError("optional `loop? .. iter` is not supported")
+            pos = T(lp["body_open"]).start
+            prio = {"invariant_except_break": 10, "invariant": 12, "ensures": 14, "decreases": 16}[what]
+            if (n, what) not in loop_hdr:
+                loop_hdr.add((n, what))
+                add(pos, pos, "\n" + what + "\n", "contract", prio)
+            add(pos, pos, raw(body), "contract", prio + 1, origin=tmpl_origin(lno))
+        elif k == "at":
+            self._anchor(hd[2:].strip(), body, lno, src, toks, it, loops, add, tmpl_origin, f, head["fn"])
+        else:
+            raise ValueError("only `loop?` and `at?` sections may be optional")
+
     # ------------------------------------------------------------------
     def _anchor(self, where, body, lno, src, toks, it, loops, add, tmpl_origin, f, fn):
         T = lambda i: toks[i]
@@ -447,9 +505,9 @@ class Weaver:
             p = self._tail_start(src, toks, it.body_open, it.body_close) if it.arrow is not None else T(it.body_close).start
             add(p, p, text, "hint", 70, origin=tmpl_origin(lno, 1))
         elif w[0] == "loop":
-            n = int(w[1])
-            if n >= len(loops):
-                raise Lost("%s::%s: loop %d not found" % (f, fn, n))
+            sel, rest = _split_loop_sel(w)
+            n = _loop_index(sel, loops, src, toks, f, fn)
+            w = ["loop", str(n)] + rest
             lp = loops[n]
             if w[2] == "entry":
                 p = T(lp["body_open"]).end
@@ -460,15 +518,13 @@ class Weaver:
             else:
                 raise ValueError("bad loop anchor " + where)
         elif w[0] == "after" and w[1] == "loop":
-            n = int(w[2])
-            if n >= len(loops):
-                raise Lost("%s::%s: loop %d not found" % (f, fn, n))
+            sel, rest = _split_loop_sel(w[1:])
+            n = _loop_index(sel, loops, src, toks, f, fn)
             p = T(loops[n]["body_close"]).end
             add(p, p, text, "hint", 30, origin=tmpl_origin(lno, 1))
         elif w[0] == "before-loop":
-            n = int(w[1])
-            if n >= len(loops):
-                raise Lost("%s::%s: loop %d not found" % (f, fn, n))
+            sel, rest = _split_loop_sel(w)
+            n = _loop_index(sel, loops, src, toks, f, fn)
             p = src.rfind("\n", 0, T(loops[n]["kw_tok"]).start) + 1
             add(p, p, "\n".join(body) + "\n", "hint", 30, origin=tmpl_origin(lno))
         elif w[0] in ("before", "after"):
